@@ -60,6 +60,12 @@ LARGE = dict(
 # arithmetic of the real circuit (not only of the helpers) is exercised at every width the statement quantifies over
 LARGE["thorough"] += [(k, "sweep", 1) for k in range(17, 128) if k not in {t[0] for t in LARGE["thorough"]}]
 SMALL_PARTS = {11: 2}
+# elaboration histories: another width with the same number of check bits (and one with fewer / more) is built in the same process FIRST; the
+# circuit of k must not depend on what was elaborated before it (shared caches / class-level state)
+HISTORY = dict(
+    quick=[(4, "all", (2,)), (4, "all", (8, 2)), (8, "all", (5,)), (8, "all", (11, 5)), (16, "struct", (12,)), (16, "struct", (26, 12, 15))],
+    thorough=[(11, "all", (8, 5)), (15, "struct", (12,)), (26, "struct", (12, 15)), (57, "sweep", (32, 27)), (120, "sweep", (64,))],
+)
 
 
 # ------------------------------------------------------------------------------------------------
@@ -237,6 +243,8 @@ def configs(tier):
         for p in range(nparts):
             name = f"k={k:03d}/allwords" + (f"/part{p+1:02d}of{nparts:02d}" if nparts > 1 else "")
             cf.append((name, "enum", k, "all", p, nparts))
+    for k, kind, before in HISTORY["quick"] + (HISTORY["thorough"] if tier == "thorough" else []):
+        cf.append((f"k={k:03d}/{kind if kind != 'all' else 'allwords'}/built after k=" + ",".join(str(b) for b in before), "enum", k, kind, 0, 1, list(before)))
     cf.append((f"geometry/k=001..{GEOM_KMAX:03d}", "geom", GEOM_KMAX))
     return cf
 
@@ -270,11 +278,14 @@ def run_config(cfg, seed, tier):
 
 
 def run_enum(cfg, seed):
-    name, _, k, kind, part, nparts = cfg
+    name, _, k, kind, part, nparts = cfg[:6]
+    before = list(cfg[6]) if len(cfg) > 6 else []
     col = Collector()
     res = dict(cfg=name, cfg_args=list(cfg), k=k, exhaustive=True, violations=[], evaluations=0, distinct=0, conformed=0,
                sample=None, cover={})
     try:
+        for kb in before:
+            build(kb)           # elaborated first, then dropped
         w = build(k)
     except Exception as e:      # the constructor of a supported width fails or hangs
         rule = "build.hang" if isinstance(e, Hang) else "build.error"
@@ -337,7 +348,7 @@ def run_enum(cfg, seed):
                        msg=(f"k={k} word={hx(word)} flip={hx(mk)} ({popcount(mk)} bit(s)) enable={en}: decoder gives "
                             f"o={hx(o)} sec={sec} ded={ded}, expected o={'any' if exp['o'] is None else hx(exp['o'])} "
                             f"sec={exp['sec']} ded={exp['ded']}"),
-                       detail=dict(kind="case", k=k, word=hx(word), flip=hx(mk), enable=en, code=hx(v[icode]),
+                       detail=dict(kind="case", k=k, built_before=before, word=hx(word), flip=hx(mk), enable=en, code=hx(v[icode]),
                                    got=dict(o=hx(o), sec=sec, ded=ded),
                                    expected=dict(o=None if exp["o"] is None else hx(exp["o"]), sec=exp["sec"], ded=exp["ded"])),
                        trace=[dict(k=k, word=hx(word), flip=hx(mk), enable=en)])
@@ -528,6 +539,8 @@ def replay(rec):
     k = d["k"]
     word, mask, en = int(d["word"], 16), int(d["flip"], 16), int(d["enable"])
     m, n = ref_m_n(k)
+    for kb in d.get("built_before") or []:
+        build(kb)               # the elaboration history of the configuration
     out = stock_eval(k, word, mask, en)
     exp = expect(word, mask, en, ref_data_positions(n))
     rules = classify(word, mask, en, exp, out["o"], out["sec"], out["ded"])
